@@ -114,4 +114,11 @@ def Consumer.default : Consumer → Bool
 def consumerOf (name : String) : Option Consumer :=
   if name == "any" then some .any else if name == "all" then some .all else none
 
+/-- `any(<generator expression>)` / `all(<generator expression>)`: the generator is consumed by the builtin -/
+def consumedGenexp (fname : String) (args : List Expr) (kwargs : List (String × Expr)) :
+    Option (Consumer × Expr × List Comp) :=
+  match consumerOf fname, args, kwargs with
+  | some c, [.genexp elt gens], [] => some (c, elt, gens)
+  | _, _, _ => none
+
 end FlowRecord.Selector
